@@ -1308,6 +1308,14 @@ def algorithm_lookup(out: OutputBuffer, alg_names: str) -> int:
     algorithm_names = alg_names.split(",")
     adb = SSH2_KexDB.get_db()
 
+    # Concrete gss-* key exchange names (i.e.: 'gss-gex-sha1-vz8J1E9PzLr8b1K+0remTg==') are stored in the database under a wildcard ('gss-gex-sha1-*'); look them up under that name, exactly as output_algorithm() does.
+    def _db_name(alg_name: str) -> str:
+        if alg_name.startswith('gss-') and not alg_name.endswith('-*'):
+            return "%s-*" % alg_name[0:alg_name.rindex('-')]
+        return alg_name
+
+    db_names = [_db_name(alg_name) for alg_name in algorithm_names]
+
     # Use nested dictionary comprehension to iterate an outer dictionary where
     # each key is an alg type that consists of a value (which is itself a
     # dictionary) of alg names. Filter the alg names against the user supplied
@@ -1316,7 +1324,7 @@ def algorithm_lookup(out: OutputBuffer, alg_names: str) -> int:
         outer_k: {
             inner_k
             for (inner_k, inner_v) in outer_v.items()
-            if inner_k in algorithm_names
+            if inner_k in db_names
         }
         for (outer_k, outer_v) in adb.items()
     }
@@ -1338,7 +1346,7 @@ def algorithm_lookup(out: OutputBuffer, alg_names: str) -> int:
     algorithms_not_found = [
         alg_name
         for alg_name in algorithm_names
-        if alg_name not in algorithms_dict_flattened
+        if _db_name(alg_name) not in algorithms_dict_flattened
     ]
 
     similar_algorithms = [
